@@ -77,6 +77,12 @@ Definition nothing_else (r : lresult) (d' : fs) : bool :=
                             existsb (fun f => is_prefix (fst kv) (fst f)) (r_files r)
                      end) d'.
 
+(* the environment handle_layer returns is read back from the layer: the callback's entries plus the
+   implicit layer paths of the bin/lib/include/pkgconfig directories now present in it (C10) *)
+Definition with_paths (e : layer_env) (d : fs) : layer_env :=
+  let e0 := read_layer_paths spec_layer_paths spec_sep [] d in
+  mkLE (le_all e) (le_build e) (le_launch e) (le_process e) (le_paths_build e0) (le_paths_launch e0).
+
 Definition ok_or_bp (r : tres) : bool := match r with TOk _ _ _ => true | TErr EBuildpack => true | TErr _ => false end.
 
 Definition handle_holds (names : list bytes) (probes : probe_set) (n : bytes) (L : tlayer) (pre post : store)
@@ -98,14 +104,15 @@ Definition handle_holds (names : list bytes) (probes : probe_set) (n : bytes) (L
         match tl_create L, l_dir l' with
         | COk res, Some d' =>
             omd_same x (r_md res) && result_on_disk res l' && nothing_else res d' &&
-            probes_ok (match r_env res with Some i => le_of_inserts i | None => le_empty end) probes outs
+            probes_ok (with_paths (match r_env res with Some i => le_of_inserts i | None => le_empty end) d') probes outs
         | _, _ => false
         end
       else if has_update ecalls then
-        match tl_update L with
-        | COk res => omd_same x (r_md res) && result_on_disk res l' &&
-                     probes_ok (match r_env res with Some i => le_of_inserts i | None => le_empty end) probes outs
-        | CErr => false
+        match tl_update L, l_dir l' with
+        | COk res, Some d' =>
+            omd_same x (r_md res) && result_on_disk res l' &&
+            probes_ok (with_paths (match r_env res with Some i => le_of_inserts i | None => le_empty end) d') probes outs
+        | _, _ => false
         end
       else
         (* keep: nothing but the types changes *)
